@@ -162,6 +162,7 @@ type TB struct {
 	small  [512]*Term // -128..383
 	vars   []*Term
 	nTerms int
+	varCache map[int32][]*Term
 }
 
 func NewTB() *TB {
@@ -1112,5 +1113,36 @@ func (t *Term) write(sb *strings.Builder, depth int) {
 			}
 		}
 		sb.WriteString(")")
+	}
+}
+
+// collectVars adds the free variables of t to set (memoised per term).
+func (tb *TB) collectVars(t *Term, set map[*Term]bool) {
+	switch t.nfv {
+	case 0:
+		return
+	case 1:
+		set[t.fv] = true
+		return
+	}
+	if tb.varCache == nil {
+		tb.varCache = map[int32][]*Term{}
+	}
+	vs, ok := tb.varCache[t.id]
+	if !ok {
+		tmp := map[*Term]bool{}
+		for _, x := range [3]*Term{t.a, t.b, t.c} {
+			if x != nil {
+				tb.collectVars(x, tmp)
+			}
+		}
+		vs = make([]*Term, 0, len(tmp))
+		for v := range tmp {
+			vs = append(vs, v)
+		}
+		tb.varCache[t.id] = vs
+	}
+	for _, v := range vs {
+		set[v] = true
 	}
 }
